@@ -1,5 +1,6 @@
 # -*- coding: utf-8 -*-
 
+import re
 from io import BytesIO
 from math import sqrt
 from os import SEEK_END, SEEK_SET
@@ -67,6 +68,8 @@ class Range(HeaderElement):
 
 	is_request_header = True
 
+	RE_UNIT = re.compile(b"^[!#$%&'*+.^_`|~0-9A-Za-z-]+\\Z")
+
 	def __init__(self, value: str, ranges: List[Union[Tuple[None, int], Tuple[int, int], Tuple[int, None]]], params: None=None) -> None:
 		self.ranges = ranges
 		super(Range, self).__init__(value, params)
@@ -78,6 +81,8 @@ class Range(HeaderElement):
 	@classmethod
 	def parse(cls, elementstr: bytes) -> "Range":
 		bytesunit, __, byteranges = elementstr.partition(b'=')
+		if not cls.RE_UNIT.match(bytesunit):
+			raise InvalidHeader(_(u'no range unit.'))
 		byteranges = super(Range, cls).split(byteranges)
 		ranges = set()
 		for brange in byteranges:
